@@ -13,39 +13,15 @@ ODD_T = [104, 66, 64, 115, 0, 122, 24, 200, 4200]
 
 LIMITS = sorted(set([0, 2**7, 2**8, 2**15, 2**16, 2**31, 2**32, 2**63, 2**64, 33, 127, 2**24, 2**53]))
 
-# ---- switches for patches proposed under /verif/docs that are NOT yet committed in /repo (flip to True after committing;
-# nothing else has to change) ----
+# ---- switches for patches of /verif/docs; both are committed in /repo (4ff2a89, eb298e3): constants, nothing at run time decides them ----
 # docs/C07_convert_string_space.diff: mpt_convert_string returns 0 when nothing was converted (white space only).
-#   False: the model describes the unpatched function, the known finding convert_string_space_only is reported.
-#   True:  the model describes the patched function (driver argument "space-patched"), the finding must be gone;
-#          then also change the known_findings.json entry convert_string_space_only from "known" to "fixed".
-PATCHED_STRING_SPACE = False
+#   True: the model describes the patched function (driver argument "space-patched"); committed as 4ff2a89.
+PATCHED_STRING_SPACE = True
 # docs/C07_valfmt_query.diff: mpt_convert_string(text, TypeValFmt, 0) stores through the null destination.
 #   False: the generator asks for a value format only WITH a destination (cases "ts 24 1 ...").
 #   True:  it also asks without one (cases "ts 24 0 ...": same answer as performing, no fault).
 PATCHED_VALFMT_QUERY = True
 
-KNOWN_LOCAL = [{
-    "kind": "known", "property": "C07", "match": "convert_string_space_only",
-    "what": "mpt_convert_string(from, numeric type, dest) with from = one or more white-space characters only: "
-            "returns strlen(from) > 0 (success, characters consumed) although nothing was converted and dest is not written",
-}]
-
-_orig_load_known = vcheck.load_known
-
-
-def _load_known(pid):
-    """known_findings.json entries of C07; until the coordinator has added the entry described in
-    docs/notes_C07.md the local copy above stands in for it"""
-    k = _orig_load_known(pid)
-    if pid == "C07" and not PATCHED_STRING_SPACE and not any(e.get("match") == "convert_string_space_only" for e in k):
-        k = k + KNOWN_LOCAL
-    if pid == "C07" and PATCHED_STRING_SPACE:
-        k = [e for e in k if e.get("match") != "convert_string_space_only"]
-    return k
-
-
-vcheck.load_known = _load_known
 
 # Axioms that may appear in the Print Assumptions output of C07 (none is declared by this development: all four come
 # with Coq's standard library and are what Flocq's real-number rounding operator `round` is built on).  A theorem that
@@ -209,12 +185,10 @@ class C07(DiffProperty):
                   "a NaN value passes any range (C comparison, observation in docs/notes_C07.md); text -> 'c' and query = perform for mpt_value_convert are "
                   "correspondence/executable-spec only; mpt_valfmt_get and the objects behind interface sources are executed, not modelled (specification-level comparison: no fault, "
                   "query = perform); the traits table of ConvDispatch.v is compared with mpt_type_traits on every run (T case), not proved. "
-                  "Open patches (switches in props/c07.py, both False): docs/C07_convert_string_space.diff (PATCHED_STRING_SPACE), docs/C07_valfmt_query.diff "
-                  "(PATCHED_VALFMT_QUERY: until committed the generator asks for a value format only with a destination). "
+                  "Both patches of docs/C07_*.diff are committed in /repo (4ff2a89 white-space-only text, eb298e3 value format query). "
                   "49 theorems are closed under the global context; the 9 theorems that mention real numbers (Flocq's round) depend on the standard-library axioms "
                   "ClassicalDedekindReals.sig_forall_dec, ClassicalDedekindReals.sig_not_dec, FunctionalExtensionality.functional_extensionality_dep and Classical_Prop.classic "
-                  "(no axiom is declared by this development; the Z-only theorem C07_float_round_nearest_even_Z states nearest-even without them). "
-                  "Known finding left in the code: mpt_convert_string on white-space-only text reports consumed characters without converting.")
+                  "(no axiom is declared by this development; the Z-only theorem C07_float_round_nearest_even_Z states nearest-even without them).")
     technique = ("Coq case analysis + lia/nia over Z on a transcribed mechanism model (incl. a Gallina strtoimax/strtoumax and a dyadic IEEE rounding), "
                  "equivalence of that rounding with Flocq's generic round/ZnearestE on FLT formats, + differential correspondence check")
     assumptions = ["'C' locale", "LP64 / x86-64 type sizes", "iterator passed to mpt_iterator_consume behaves (value stays valid until advance)"]
@@ -314,7 +288,7 @@ class C07(DiffProperty):
                 b = unhx(item)
                 if item not in ("-", "NULL") and b and all(c in b" \t\n\v\f\r" for c in b) and itok and itok[0] in "UQ" and stok == "R":
                     return ("mpt_convert_string on white-space-only text reports the white space as consumed characters "
-                            "without converting anything (convert_string.c; known_findings: convert_string_space_only)")
+                            "without converting anything (convert_string.c; fixed by 4ff2a89: reported again if it returns)")
         return None
 
     # ------------------------------------------------------------------ oracle for float text
